@@ -35,11 +35,103 @@ ADV_IDS = ['gb:x', 'sp|a|b', 'a;b', 'xgb:y', '>x', 'a,b', 'lcl|z', 'gb|', '#x', 
            'x>', 'tr|', 'a:b', 'emb|E1|nm', 'dbj|', '#=GF', '# STOCKHOLM', 'gbgb:w', 'g', 'sp', 'x|', ';', '|', ',', 'a b', '', None]
 
 
+# ----------------------------------------------------------------------------- keyword stream
+# Literal keywords used by the readers / writers / sniffers, extracted from the source of the anchored modules of the tree
+# under test (string constants, split into words), plus words of the SJSON comment line and a few names of neighbouring
+# formats. They are used as ids and as residue strings (whole value, substring, line start; upper and lower case).
+KW_FILES = ['_io/fasta.py', '_io/stockholm.py', '_io/sjson.py', '_io/gff.py', '_io/main.py', 'core/seq.py', 'core/meta.py']
+KW_EXTRA = ['meta', 'id', 'data', 'header', 'fts', 'type', 'stockholm', 'STOCKHOLM', 'Stockholm', 'GF', 'GC', 'GS', 'GR', 'FASTA',
+            'fasta', 'gff', 'gffversion', 'version', 'sugar', 'JSON', 'json', 'format', 'written', '_cls', '_fmtcomment', '_fmt',
+            'LOCUS', 'ORIGIN', 'None', 'null', 'BioSeq', 'BioBasket', 'Meta', 'Attr', 'seqid', 'source', 'Name', 'ID', 'comment']
+_KW_CACHE = {}
+
+
+def keywords():
+    if 'kw' in _KW_CACHE:
+        return _KW_CACHE['kw']
+    import ast
+    import sugar
+    root = os.path.dirname(sugar.__file__)
+    words = set(KW_EXTRA)
+    for fn in KW_FILES:
+        try:
+            tree = ast.parse(open(os.path.join(root, fn)).read())
+        except Exception:
+            continue
+        docs = set()
+        for n in ast.walk(tree):
+            if isinstance(n, (ast.FunctionDef, ast.ClassDef, ast.Module)):
+                d = ast.get_docstring(n, clean=False)
+                if d:
+                    docs.add(d)
+        for n in ast.walk(tree):
+            if isinstance(n, ast.Constant) and isinstance(n.value, str) and n.value not in docs and len(n.value) <= 24:
+                for w in re.findall(r'[A-Za-z_][A-Za-z0-9_]*', n.value):
+                    if 2 <= len(w) <= 12:
+                        words.add(w)
+    try:
+        from sugar._io.sjson import COMMENT
+        words.update(w for w in re.findall(r'[A-Za-z]+', COMMENT) if len(w) >= 2)
+    except Exception:
+        pass
+    _KW_CACHE['kw'] = sorted(words)
+    return _KW_CACHE['kw']
+
+
+def kw_ids(k):
+    """ids built from keyword k that are legal in every id alphabet (no whitespace, not starting with # / >)"""
+    return [k, k.upper(), k.lower(), 'NoV_' + k.capitalize() + '_2016/1-5', k + '.1', 'x' + k, '1.0' + k + '=', k + '#=GF']
+
+
+def kw_res(k):
+    """residue strings built from keyword k (letters only): whole value, at line start, as substring; both cases"""
+    a = ''.join(c for c in k if c.isalpha())
+    if not a:
+        return []
+    return [a, a.upper(), a.lower(), a.upper() + 'ACGU', 'MK' + a.upper() + 'W*', 'ac' + a.lower() + 'gu', '-' + a + '.']
+
+
+def kw_cases(rng, tier):
+    """every keyword as id and as residue string through every format (writer side) and through FASTA / Stockholm /
+    GFF reader-side text"""
+    cases = []
+    kws = keywords()
+    for fmt in FMTS:
+        for k in kws:
+            ids, res = kw_ids(k), kw_res(k)
+            reps = 1 if tier == 'quick' else 3
+            for _ in range(reps):
+                s1 = [rng.choice(ids), rng.choice(['ACGU', 'MKV*', 'acgt-']), None]
+                seqs = [s1]
+                if res:
+                    seqs.append(['p' + str(len(k)), rng.choice(res), None])
+                    i3 = rng.choice(ids)
+                    if i3 != s1[0]:
+                        seqs.append([i3, rng.choice(res), rng.choice([None, i3 + ' ' + k + ' ' + k.upper()])])
+                rng.shuffle(seqs)
+                cases.append({'op': 'cycle', 'fmt': fmt, 'seqs': seqs, 'via': rng.choice(['str', 'str', 'path', 'sio'])})
+    for k in kws:
+        res = kw_res(k) or ['ACGU']
+        i1, i2 = rng.choice(kw_ids(k)), rng.choice(kw_ids(k))
+        r1, r2 = rng.choice(res), rng.choice(res)
+        ft = '>%s %s description %s\n%s\n%s\n>%s\n%s\n' % (i1, k, k.upper(), r1, r2, 'q' + i2, r2)
+        cases.append({'op': 'read', 'fmt': 'fasta', 'text': ft, 'via': 'str'})
+        if i1 != i2:
+            st = '# STOCKHOLM 1.0\n%s %s\n%s  %s\n\n%s %s\n%s %s\n//\n' % (i1, r1, i2, r2, i1, r2, i2, r1)
+            cases.append({'op': 'read', 'fmt': 'stockholm', 'text': st, 'via': 'str'})
+        if tier != 'quick' or rng.random() < 0.5:
+            cases.append({'op': 'read', 'fmt': 'gff', 'text': '##gff-version 3\n#' + k + '\n##FASTA\n' + ft, 'via': 'str'})
+    return cases
+
+
 # ----------------------------------------------------------------------------- generators
 
 def g_id(rng, adv=0.12):
-    if rng.random() < adv:
+    r = rng.random()
+    if r < adv:
         return rng.choice(ADV_IDS)
+    if r < adv + 0.08:
+        return rng.choice(kw_ids(rng.choice(keywords())))
     n = rng.choice([1, 1, 2, 3, 5, 8, 12])
     s = ''.join(rng.choice(IDCH) for _ in range(n))
     if rng.random() < 0.7:
@@ -51,6 +143,11 @@ def g_res(rng, maxlen=200):
     n = rng.choice([0, 0, 1, 1, 2, 3, 5, 8, 20, 59, 60, 61, rng.randrange(0, maxlen + 1)])
     alpha = rng.choice([RES_NT, RES_NT, RES_AA, 'ACGT', 'acgtn-', RES_AA.lower(), 'meta', 'AmEtA-'])
     s = ''.join(rng.choice(alpha) for _ in range(n))
+    if rng.random() < 0.08:
+        kr = kw_res(rng.choice(keywords()))
+        if kr:
+            k = rng.choice(kr)
+            s = rng.choice([k, k + s, s + k, s[:len(s) // 2] + k + s[len(s) // 2:]])
     if rng.random() < 0.15:
         k = rng.randrange(0, len(s) + 1)
         s = s[:k] + rng.choice(['meta', 'META', 'id', 'fts', 'Meta']) + s[k:]
@@ -172,11 +269,12 @@ def g_gff_text(rng):
 def gen_cases(rng, tier):
     cases = []
     vias = ['str', 'str', 'path', 'ext', 'handle', 'sio']
-    n_cycle, n_app, n_read = (12000, 2000, 9000) if tier == 'thorough' else (700, 150, 650)
+    n_cycle, n_app, n_read = (12000, 2000, 9000) if tier == 'thorough' else (550, 120, 500)
     # a few fixed regression shapes
     for fmt in FMTS:
         cases.append({'op': 'cycle', 'fmt': fmt, 'seqs': [['s1', 'ametab', None], ['s2', 'ACGU', None]], 'via': 'str'})
         cases.append({'op': 'cycle', 'fmt': fmt, 'seqs': [['s1', 'MKV*', 's1 a protein'], ['s1', 'acgt-n', None]], 'via': 'path'})
+    cases += kw_cases(rng, tier)
     for _ in range(n_cycle):
         fmt = rng.choice(FMTS)
         cases.append({'op': 'cycle', 'fmt': fmt, 'seqs': g_seqs(rng, fmt=fmt), 'via': rng.choice(vias)})
@@ -474,6 +572,9 @@ def _marks(case, got):
             ms.append('lower')
         if any('meta' in d.lower() for _, d, _ in seqs):
             ms.append('meta')
+        kws = [k.lower() for k in keywords() if len(k) >= 3]
+        if any(k in (d or '').lower() or k in (i or '').lower() for i, d, _ in seqs for k in kws):
+            ms.append('keyword')
         if any(d == '' for _, d, _ in seqs):
             ms.append('empty')
         if any(i and re.search(r'gb[:|]|(emb|dbj|sp|tr|ref|lcl)\|', i) for i, _, _ in seqs):
